@@ -18,6 +18,10 @@ C = {
    "Kernel-checked over all histories and all directory contents: files a run does not target are untouched, an existing skip_exists file is never rewritten, every other target equals a fresh generation into an empty directory (given distinct target paths), a missing skip_exists file is created; the default layout has exactly one skip_exists template governed by --regenerate-configureapi (table regenerated from DefaultSectionOpts). Tie: real histories of swagger generate runs and user edits, every step compared with the model's prediction and with a fresh generation.",
    "proof (Coq 8.16) by induction over histories + real-history correspondence",
    "Modelled: GenOpts.write/skip_exists as an abstract path->content machine. Exercised, not modelled: OS file semantics, template rendering."),
+ "C19": ("proof", "5.19", "rocq-yaml",
+   "Kernel-checked for integers of any size: the decimal text both renderings share parses back to the same integer and is injective (no 2^53 cliff), tied to Go's rendering by a correspondence run. PARTIAL: YAML block structure and the scalar quoting rules of yaml.v3 / swag.JSONMapSlice are dependencies, exercised rather than modelled: every spec-emitting command (flatten, expand, mixin, generate spec, init spec) x {json,yaml} input x {json,yaml} output x compact/pretty on documents carrying every class of ambiguous scalar; YAML outputs reloaded with the loader go-swagger itself uses and compared as exact JSON values.",
+   "proof (Coq 8.16, integer text) + exhaustive-by-class CLI differential oracle",
+   "Modelled: decimal integer text (Coq stdlib Decimal). Dependencies (exercised, not modelled): gopkg.in/yaml.v2/v3, swag.JSONMapSlice, swag.YAMLDoc."),
  "C12": ("proof", "5.12", "rocq-diff",
    "Kernel-checked theorems (Props/C12.v) that every comparison function of a hand-written Gallina model of the diff analyser yields nothing on equal arguments, for all inputs (partial: the composition over the recursive schema walk is exercised, not proved). The model is tied to the code on every run by a correspondence run (model evaluated by vm_compute on generated spec pairs vs diff.Compare in a child process) and the property itself is tested on the implementation: identity, YAML re-serialisation through the command, totality incl. fatal stack overflow / hang.",
    "proof (Coq 8.16) + model/implementation correspondence",
@@ -38,6 +42,7 @@ C = {
 ENG = {
  "rocq-diff": ("/verif/coq (Tools/Diff*.v) + /verif/harness/cmd/diffcheck", "Coq 8.16 model + theorems of the diff analyser; Go correspondence/oracle harness"),
  "rocq-text": ("/verif/coq (Tools/Escape*.v, Gen/GenTextSites.v) + /verif/harness/cmd/textcheck", "Coq 8.16 model of the text helpers and Go lexical contexts; site-inventory translator; rendering oracles"),
+ "rocq-yaml": ("/verif/coq (Tools/Decimal.v) + /verif/harness/cmd/yamlcheck", "Coq 8.16 integer-text theorems; CLI differential harness over scalar classes"),
  "rocq-fs": ("/verif/coq (Tools/Regen*.v) + /verif/harness/cmd/regencheck", "Coq 8.16 file-system history machine; real-history harness"),
 }
 extra = os.path.join(V, "tools", "manifest_extra.json")
